@@ -58,7 +58,7 @@ def cases(ctx):
             gen.add_alias(rng, c)       # one index object as two dimensions of the cube
         n = c["dense"][0].shape[0] if c["dense"] else gen.pick(rng, [1, 4, 9])
         c["n"] = n
-        c.update(aggr.agg_inputs(rng, n))
+        c.update(aggr.agg_inputs(rng, n, tiny_weights=True))
         c["xdtype"] = gen.pick(rng, ["signed", "unsigned", "int64"])
         c["xshape_inferred"] = bool(rng.random() < 0.5)
         yield c
